@@ -70,8 +70,8 @@ CLAIMED = {
    note="NOT decided: equality of loss values/auxiliaries with the documented regression, choice of bootstrap, zero gradient into targets, batch size 1, representation-loss values (pure per-call clauses). TD7/MR.Q excluded (their representation losses legitimately read the successor).",
    technique="deterministic simulation twin runs with storage-corruption and batch-reordering faults in the replay-buffer seam"),
  "C07": dict(level="fault_enumeration", engine="TrainSim twin runs", design="§4 C07",
-   text="NARROW SLICE decided by fault injection inside simulated MR.Q training: rewriting, in the batch returned by one sample_batch call, every field after the first terminated step of each sampled sub-trajectory (rewards, actions, observations, successors, later flags) must leave the complete training trace (critic target/loss, encoder / dynamics / reward / done losses, priorities through later sampling, final hashes) bit-identical to the clean twin.",
-   note="NOT decided: GAE / reward-to-go / n-step recurrences against float64 references and independence between parallel environments in A2C/PPO (pure per-call clauses).",
+   text="NARROW SLICE decided by fault injection inside simulated MR.Q training: rewriting, in the batch returned by one sample_batch call, every field after the first terminated step of each sampled sub-trajectory (rewards, actions, observations, successors, later flags) must leave the complete training trace (critic target/loss, encoder / dynamics / reward / done losses, priorities through later sampling, final hashes) bit-identical to the clean twin. Plus (C07.c) real A2C collection and batch preparation on 2-3 scripted environments executed twice with ONE environment's reward script rewritten: advantages and returns of the other environments must be bit-identical.",
+   note="NOT decided: GAE / reward-to-go / n-step recurrences against float64 references (pure per-call clauses); PPO's batched GAE is inside the jitted update and not observable per environment.",
    technique="deterministic simulation twin runs with post-terminal data corruption in the replay-buffer seam"),
  "C16": dict(level="exploration", engine="OptimSim", design="§4 C16",
    text="CMA-ES driven through its public ask/tell functions in train_cmaes order under scripted fitness feedback (ties, huge, constant, adjacent floats; +-inf/NaN as faults), dimensions 1-8, populations, active/default updates, against invariants and float64 recomputation (weights, incumbent, weighted mean of the mu best with tie enumeration, step-size growth bound, covariance symmetry/positive diagonal, flat-parameter round trip); train_cmaes on a scripted environment; CEM primitives and optimize_cem with recording fitness under adversarial bounds/means/variances.",
